@@ -1,8 +1,8 @@
 (* C11 - Tab completes to the common continuation of all matching command names. Statements only.
    complete_spec (Spec/CompletionSpec.v) is the declarative completion over characters; the model is Editor::autocompletion driven by
    the derived scan over all visible names in declaration order (any order, any grouping) followed by the built-in `help`. *)
-From EC Require Import Base Generated.Codes Model.Utils Model.Editor Model.Cli Spec.Utf8Spec Spec.ArgSpec Spec.IdealEditor Spec.CompletionSpec
-  Proofs.ArgsProofs Proofs.EditorProofs Proofs.CompletionProofs.
+From EC Require Import Base Generated.Codes Model.Utils Model.Input Model.Editor Model.Sink Model.Cli Spec.Utf8Spec Spec.ArgSpec Spec.IdealEditor Spec.CompletionSpec Spec.Session
+  Proofs.ArgsProofs Proofs.EditorProofs Proofs.CompletionProofs Proofs.SinkOk Proofs.SafetyProofs Proofs.SessionProofs.
 
 (* the fold of merge_autocompletion over ANY list of candidates (any order, any number, empty ones, ones longer than the room) yields
    the longest common prefix cut to the whole characters that fit; "partial" iff more than one candidate or truncated *)
@@ -22,6 +22,39 @@ Theorem C11_tab : forall cap e i cs, Rep cap e i -> Forall valid_tok (cs_names c
     (text e', cursor e') = complete_spec (cs_names cs ++ [HELP_CANDIDATE]) cap (text e) (cursor e).
 Proof. exact autocompletion_spec. Qed.
 Print Assumptions C11_tab.
+
+(* the property's own clauses, on characters (TabShape): Tab either changes nothing, or only blanks after the cursor are dropped, what is
+   appended consists of characters of a matching name (and possibly one blank), and the cursor goes to the end - so completion never
+   alters or removes a non-blank character already typed; Rep cap e' i' says the result never exceeds the command buffer *)
+Theorem C11_shape : forall cap e i cs, Rep cap e i -> Forall valid_tok (cs_names cs) ->
+  exists e' i', ed_autocompletion e (complete_with cs) = Some e' /\ Rep cap e' i' /\
+    (text e', cursor e') = complete_spec (cs_names cs ++ [HELP_CANDIDATE]) cap (text e) (cursor e) /\
+    TabShape (cs_names cs ++ [HELP_CANDIDATE]) i i'.
+Proof. exact autocompletion_spec_shape. Qed.
+Print Assumptions C11_shape.
+
+(* through the whole Cli: when the byte received decodes to Tab (feature autocomplete on), line and cursor afterwards are exactly
+   complete_spec of the line and cursor before, over every name the command set exposes plus the built-in help - every buffer size,
+   command set, handler, decoder state; with the feature off the line is untouched *)
+Theorem C11_cli : forall feats cs handler, cmdset_ok cs -> forall cap hcap b s a r s', byte b -> SRel cap hcap s a ->
+  snd (accept (ig s) b) = Some (Ctl Tab) ->
+  api_process_byte okT feats cs handler b s = (r, s') ->
+  r = Ok tt /\ hcalls s' = hcalls s /\
+  (text (ed s'), cursor (ed s')) =
+    (if f_ac feats then complete_spec (cs_names cs ++ [HELP_CANDIDATE]) cap (text (ed s)) (cursor (ed s)) else (text (ed s), cursor (ed s))).
+Proof.
+  intros feats cs handler Hcs cap hcap b s a r s' Hb HS Ht E.
+  destruct (process_byte_refines feats cs handler Hcs cap hcap b s a r s' Hb HS E) as (-> & (R' & _) & Hc & _).
+  rewrite Ht in *. cbn [astep_opt astep] in *.
+  destruct HS as (R & _). pose proof R as (_ & q2 & q3 & _).
+  split; [reflexivity|]. destruct (f_ac feats).
+  - destruct Hcs as [Hvn _]. destruct (autocompletion_spec cap (ed s) (aline a) cs R Hvn) as (e2 & i2 & _ & (_ & t2 & _ & w2 & _) & Esp).
+    unfold ibytes in *. rewrite <- q2, <- q3 in *. rewrite <- Esp in *. cbn [fst snd set_line aline] in *.
+    rewrite app_nil_r in Hc. split; [exact Hc|]. destruct R' as (_ & r2 & r3 & _). cbn [chars icur] in *. rewrite r2, r3.
+    rewrite t2, chars_of_concat by exact w2. reflexivity.
+  - cbn [fst snd] in *. rewrite app_nil_r in Hc. split; [exact Hc|]. destruct R' as (_ & r2 & r3 & _). rewrite r2, r3, q2, q3. reflexivity.
+Qed.
+Print Assumptions C11_cli.
 
 Example C11_nonvacuous :
   (* names in an order where the ones sharing a prefix are not adjacent; tight buffer; prefix-of-another *)
